@@ -322,6 +322,7 @@ func c04units(tier string) []mc.Unit {
 			r.Bound("long", fmt.Sprintf("two sequence families at lengths %v", shLongLengths(tier)))
 		}})
 	}
+	us = append(us, historyUnit("api-histories", shMenu(), 3))
 	// RNA spelling: Hash(U-spelling, RNA) == Hash(T-spelling, DNA) except the type letter
 	rnaMax := tier2(tier, 7, 9)
 	for n := 0; n <= rnaMax; n++ {
@@ -635,6 +636,7 @@ func c05units(tier string) []mc.Unit {
 			}})
 		}
 	}
+	us = append(us, historyUnit("api-histories", shMenu(), 3))
 	// rejection must not depend on what was hashed before: accept a sequence under one declaration, then
 	// present the same letters under a declaration that must be refused
 	us = append(us, mc.Unit{Name: "reject-after-accept", Weight: 30, Run: func(r *mc.Recorder) {
@@ -730,6 +732,28 @@ func c05units(tier string) []mc.Unit {
 		r.Sample(`Hash("AC!G","DNA",...) and every other printable non-alphabet byte at every position of a 3-letter sequence must return an error`)
 	}})
 	return us
+}
+
+func shMenu() []hcall {
+	h := func(name, s, typ string, circ, ds bool) hcall {
+		return hcall{name, func() any {
+			v, err := seqhash.Hash(s, typ, circ, ds)
+			if err != nil {
+				return "error"
+			}
+			return v
+		}, showSprint}
+	}
+	return []hcall{
+		h("Hash(GATTACA,DNA,circ,ds)", "GATTACA", "DNA", true, true),
+		h("Hash(TGTAATC,DNA,circ,ds)", "TGTAATC", "DNA", true, true),
+		h("Hash(gattaca,DNA,lin,ds)", "gattaca", "DNA", false, true),
+		h("Hash(GAUUACA,RNA,circ,ss)", "GAUUACA", "RNA", true, false),
+		h("Hash(MKVF,PROTEIN,lin,ss)", "MKVF", "PROTEIN", false, false),
+		h("Hash(MKVF,DNA,lin,ss)", "MKVF", "DNA", false, false),
+		h("Hash(GATTACA,PROTEIN,circ,ds)", "GATTACA", "PROTEIN", true, true),
+		{"RotateSequence(TTAGCA)", func() any { return seqhash.RotateSequence("TTAGCA") }, showSprint},
+	}
 }
 
 func init() {
